@@ -109,8 +109,12 @@ type controller struct {
 	// Called to stop the controller.
 	cancel context.CancelFunc
 
-	// Protects the below map.
+	// Protects the below fields.
 	mx sync.RWMutex
+
+	// Set when the controller is stopped. A caller that looked the controller
+	// up just before it was stopped must not start new watches for it.
+	stopped bool
 
 	// The controller's sources, by watched GVK.
 	sources map[WatchID]*StoppableSource
@@ -275,6 +279,7 @@ func (e *ControllerEngine) Stop(ctx context.Context, name string) error {
 	}
 
 	// Stop and delete the controller.
+	c.stopped = true
 	c.cancel()
 	delete(e.controllers, name)
 
@@ -396,6 +401,12 @@ func (e *ControllerEngine) StartWatches(name string, ws ...Watch) error {
 	// read lock, so we compute everything again.
 	c.mx.Lock()
 	defer c.mx.Unlock()
+
+	// The controller may have been stopped since we looked it up. Nothing
+	// would ever stop a watch we started for it now.
+	if c.stopped {
+		return errors.Errorf("controller %q is not running", name)
+	}
 
 	// Another Goroutine may have started informers since we took the snapshot
 	// above, so we take a fresh one now that we hold the write lock.
